@@ -38,7 +38,7 @@ func main() {
 	r := vrun.Start("C14", "exploration")
 	r.Rule("part 1 (retry): 1 evaluation = one call of RetryIf/RetryOnError with a scripted operation; case = (entry point, policy{enabled, RetryMax 1..8, back-off kind, min/max wait <= 2 ms}, outcome script over O=ok R=retriable N=non-retriable C=cancel-context-then-retriable (padded with R), context kind, error flavour); " +
 		"all 1364 scripts of length <= 5 are enumerated for every back-off kind x RetryMax, lengths 6..8 sampled by PRNG; non-trivial = the first outcome is not O (the library has to take at least one retry/stop decision). " +
-		"part 2 (Apply): 1 evaluation = one Apply call judged against the math/big oracle; case = (policy kind, Retry-After honoured?, route, min, max, response{status, Retry-After values}) evaluated on an ascending list of attempt numbers (0..70, 2^k-1,2^k,2^k+1 up to 2^31); non-trivial = kind is not constant or the response carries a Retry-After header. " +
+		"part 2 (Apply): 1 evaluation = one Apply call judged against the math/big oracle; case = (policy kind, Retry-After honoured?, route, min, max, response{status, Retry-After values}) evaluated on an ascending list of attempt numbers (0..70, 2^k-1,2^k,2^k+1 up to 2^31); non-trivial = kind is not constant or the response carries a Retry-After header; plus date-crossing series: a Retry-After date 2 ms ahead (RFC 3339 with nanoseconds) while Apply is called 4000 times, so that the date passes during the series. " +
 		"part 3 (HTTP): 1 evaluation = one request method call of the retryable client against the loopback server; case = (method, policy, response script over 200/204, 429/500/503 (+Retry-After variants), 404, cancel-here, connection drop); non-trivial = first response is not a success. " +
 		"distinct_nontrivial hashes the canonical JSON of each case.")
 	r.Assume(
@@ -74,6 +74,7 @@ func main() {
 	r.Require("apply_hint_honoured_exact", 10000)
 	r.Require("apply_hint_date_bracket_checks", 2000)
 	r.Require("apply_monotonic_pairs", 100000)
+	r.Require("apply_date_passed_during_series", 500)
 	r.Require("apply_header_classes", 14)
 	r.Require("apply_cells", 150)
 	r.Require("http_calls", int64(r.Pick(2000, 20000)))
